@@ -342,6 +342,26 @@ func costFamilies(rng *rand.Rand, n int) []struct {
 			out = append(out, fam{"v6-domain-list-pointer-fan", "v6", append(append([]byte{}, hdr6...), tlv6(24, b)...), 1})
 		}
 	}
+	// F1b: names that end in a pointer back into themselves (a loop: not a name, to be refused at once), many labels long
+	{
+		var b []byte
+		for len(b)+4 <= n-2 {
+			b = append(b, 1, 'a')
+		}
+		b = append(b, 0xc0, 0)
+		out = append(out, fam{"label-self-pointer", "label", b, 0})
+		if len(b) < 65000 {
+			out = append(out, fam{"v6-domain-list-self-pointer", "v6", append(append([]byte{}, hdr6...), tlv6(24, b)...), 1})
+		}
+		var c []byte // ... and many short names each ending in a pointer to its own start
+		for len(c)+5 <= n {
+			at := len(c)
+			c = append(c, 1, 'b', 0xc0|byte(at>>8), byte(at))
+		}
+		if len(c) < 16000 {
+			out = append(out, fam{"label-many-self-pointers", "label", c, 0})
+		}
+	}
 	// F2: one unterminated name made of many short labels
 	{
 		var b []byte
